@@ -69,6 +69,9 @@ func runC20(c *Ctx, r *Report) {
 	r.Doc("R-C20.4", "SignIdentity signs exactly the published public key and id signature; its result is the published public-key signature")
 	r.Doc("control", "engine positive/negative controls analysed on every run")
 	c208(c, r)
+	r.Doc("R-C20.9", "the keystore and the identity code examine every error result before going on: a failed datastore write, key decode or signature is never followed by a cached key or a returned identity")
+	errDiscipline(c, r, "R-C20.9", func(fn *Fn) bool { return inPkgs(c.P, fn, "keystore", "identityprovider") },
+		"a key or identity is handed out although creating, storing, decoding or signing it failed — another keystore over the same datastore then sees a different (or no) key for the id", deliberateDiscards)
 
 	ks := p.Named("keystore", "Keystore")
 	nMeth := 0
